@@ -416,7 +416,7 @@ func c11Worker(args []string) {
 			}
 		}
 		var mmu sync.Mutex
-		for tn := 0; tn < 150*rounds; tn++ {
+		for tn := 0; tn < min(150*rounds, 900); tn++ {
 			fields := []reflect.StructField{{Name: "Name", Type: reflect.TypeOf("")}, {Name: "Tags", Type: reflect.TypeOf([]string{})}, {Name: fmt.Sprintf("Only%d_%d", seed, tn), Type: reflect.TypeOf(0)}}
 			for f := 0; f < 40; f++ {
 				fields = append(fields, reflect.StructField{Name: fmt.Sprintf("F%d", f), Type: reflect.TypeOf(0)})
@@ -478,7 +478,7 @@ func c11Worker(args []string) {
 			}
 		}
 		var mmu sync.Mutex
-		for tn := 0; tn < 120*rounds; tn++ {
+		for tn := 0; tn < min(120*rounds, 720); tn++ {
 			h := &object.Hash{Pairs: map[object.HashKey]object.HashPair{}}
 			var ks []string
 			sum := 0
